@@ -107,12 +107,19 @@ def build_verus():
     for anchor in (sig, head, a2):
         if fn.count(anchor) != 1:
             raise S.SliceError("create_source_location_tables: splice anchor %r found %d times" % (anchor.strip(), fn.count(anchor)))
+    # the ghost text names the function's position counter; take its name from the real text (`let mut <name> = 0;` is the
+    # function's first statement) so that a rename of the local does not lose the proof
+    mctr = re.search(r'\{\n\s*let mut (\w+) = 0;\n\s*for line in &st\.lines \{', fn)
+    if not mctr:
+        raise S.SliceError("create_source_location_tables: position counter `let mut <name> = 0;` before the loop not found")
+    ctr = mctr.group(1)
+    inv, p2, p3 = (x.replace("bytecode_index", ctr) for x in (INV, P2, P3))
     fn = fn.replace(sig, sig[:-2] + "\n" + CONTRACT + "    {\n")
-    fn = fn.replace(head, "        for line in it: &st.lines\n" + INV + "        {\n" + P1)
-    fn = fn.replace(a2, a2 + P2)
+    fn = fn.replace(head, "        for line in it: &st.lines\n" + inv + "        {\n" + P1)
+    fn = fn.replace(a2, a2 + p2)
     if not fn.endswith("        }\n    }"):
         raise S.SliceError("create_source_location_tables: end of loop not where expected")
-    fn = fn[:-len("    }")] + P3 + "    }"
+    fn = fn[:-len("    }")] + p3 + "    }"
     text = (HEADER + "// ---- real (assembly.rs), derive attributes dropped ----\n" + tt
             + "\n// ---- real (translate_bytecode.rs), fields %s dropped ----\n" % ', '.join(DROPPED_FIELDS) + st
             + "\n// the method does not touch `self`: the real struct (StaticsContext, file ASTs) is replaced by an empty one\nstruct Translator {}\n"
